@@ -260,12 +260,16 @@ func (r *Run) babiesPerQuota() {
 		if !ok {
 			continue
 		}
-		b, ok := iff.Cond.(*ssa.BinOp)
-		if !ok || b.Op != token.LSS {
+		// the iteration stays in the loop exactly when count < quota, in any spelling (quota > count, !(count >= quota), ...)
+		if len(l.Header.Succs) != 2 || l.Blocks[l.Header.Succs[0]] == l.Blocks[l.Header.Succs[1]] {
 			continue
 		}
-		if ph, ok := b.X.(*ssa.Phi); ok && ph.Block() == l.Header {
-			if t := tm.Of(b.Y); t.Op == "field" && t.Obj == eo && t.Args[0].Op == "recv" {
+		bx, by, isLess := c13LessThan(iff.Cond, l.Blocks[l.Header.Succs[0]])
+		if !isLess {
+			continue
+		}
+		if ph, ok := bx.(*ssa.Phi); ok && ph.Block() == l.Header {
+			if t := tm.Of(by); t.Op == "field" && t.Obj == eo && t.Args[0].Op == "recv" {
 				loop, count = l, ph
 			}
 		}
@@ -282,8 +286,7 @@ func (r *Run) babiesPerQuota() {
 				init = true
 			}
 		} else {
-			b, ok := e.(*ssa.BinOp)
-			if !(ok && b.Op == token.ADD && b.X == ssa.Value(count) && constTermOf(b.Y) != nil && constTermOf(b.Y).Name == "1") {
+			if !c13IsPlusOne(e, count) { // count+1 or 1+count
 				step = false
 			}
 		}
@@ -493,21 +496,20 @@ func (r *Run) stolenBabiesBalance() {
 			// the pool never goes negative: a withdrawal of X needs POOL >= X on the path (or takes exactly what is there)
 			if x := linConst(0).Add(dp, -1); !x.IsZero() && !hasNegative(x) && x.C >= 0 && !x.Equal(linAtom("POOL")) {
 				covered := false
+				// some branch outcome of the path says POOL >= x, in any spelling (pool >= x, x <= pool, !(pool < x),
+				// pool > x-1, ...): the outcome, stated as L >= 0, satisfies (POOL - x) - L = constant >= 0
+				want := linAtom("POOL").Add(x, -1)
 				for _, g := range ip.Conds {
-					b, ok := g.Cond.(*ssa.BinOp)
-					if !ok || !g.True {
+					cx, cy, op, isCmp := CmpFact(g.Cond, g.True)
+					if !isCmp || !c02IsInt(cx.Type()) || op == token.EQL || op == token.NEQ {
 						continue
 					}
-					if b.X != ssa.Value(poolPhi) {
+					l, isIneq := ineqAsLin(op, ps.Lin(cx), ps.Lin(cy), true)
+					if !isIneq || l.T["POOL"] != 1 {
 						continue
 					}
-					y := ps.Lin(b.Y)
-					switch b.Op {
-					case token.GEQ:
-						covered = covered || y.Equal(x)
-					case token.GTR:
-						d := x.Add(y, -1)
-						covered = covered || (len(d.T) == 0 && (d.C == 0 || d.C == 1))
+					if d := want.Add(l, -1); len(d.T) == 0 && d.C >= 0 {
+						covered = true
 					}
 				}
 				r.Check(covered, "stolen.nonnegative["+pathKey(ip)+"]", p.Pos(firstPos(ip)), fmt.Sprintf("%s babies are handed out only when the pool holds at least that many", x),
@@ -765,8 +767,12 @@ func (r *Run) apportionmentFixup() {
 	okBump := false
 	if bump != nil {
 		for _, g := range Guards(bump.Block()) {
-			gt := tm.Of(g.Cond)
-			if gt.Op == "bin" && gt.Name == "<" && g.True && gt.Args[1].String() == "len(recv.Organisms)" {
+			// any spelling of "<something> < len(recv.Organisms)": a < n, n > a, !(a >= n), n - a > 0, ...
+			x, y, op, isCmp := CmpFact(g.Cond, g.True)
+			if !isCmp || !c02IsInt(x.Type()) {
+				continue
+			}
+			if l, isIneq := ineqAsLin(op, linStatic(tm, x, nil, 0), linStatic(tm, y, nil, 0), true); isIneq && l.T["len(recv.Organisms)"] == 1 && l.C <= -1 {
 				okBump = true
 			}
 		}
@@ -781,7 +787,12 @@ func (r *Run) apportionmentFixup() {
 	r.Check(okDied, "apportion.fallback", p.Pos(fn.Pos()), "fallback: all quotas zero, then the whole population to one species", "the fallback for a collapsed average does not zero every quota and then give exactly the population size to one species")
 	// zero-quota species are dropped, the others kept (C09.3)
 	okKeep := false
+	okEmpty, nKept := true, 0
 	for _, st := range FieldStores(fn, p.Field(PkgG, "Population", "Species")) {
+		nKept++
+		if !c02BuiltFromEmpty(st.Val, map[ssa.Value]bool{}) {
+			okEmpty = false
+		}
 		w := phiWeb(st.Val)
 		for _, f := range w.Feeders {
 			c, ok := f.(*ssa.Call)
@@ -799,6 +810,10 @@ func (r *Run) apportionmentFixup() {
 		}
 	}
 	r.Check(okKeep, "apportion.zero-quota", p.Pos(fn.Pos()), "a species is kept iff its quota is positive", "species with a zero quota are not removed (or species with a positive quota are) before reproduction")
+	r.Check(okEmpty && nKept > 0, "apportion.kept-list", p.Pos(fn.Pos()), "the list of kept species starts empty and grows only by appends", "the list of kept species does not start as an empty list (or is not built by appends only): it holds entries - nil or stale - that are not species kept for their positive quota, and the turnover dereferences or reproduces them")
+	r.apportionRecipient(fn, tm)
+	// every path to the return re-establishes "the quotas total the population size" (c02c.go)
+	r.apportionTotal(fn, tm, quota)
 }
 
 // partitionAndAgeing implements C02.4 and C02.5.
@@ -994,7 +1009,7 @@ func boolFieldCondTerm(tm *Termer, g Guard, term string, want bool) bool {
 
 // C02 — an epoch conserves population size and keeps species a partition.
 func C02(p *Prog, r *Run) {
-	r.Explanation = "Decided: (1) pipeline order of both executors by dominance (adjust fitness of every species, quotas and zero-quota purge, delta coding or stolen babies, purge of eliminated organisms, reproduction of every species, progeny-size check on the very list that is speciated, purge of the old generation, purge/ageing of species); (2) Species.reproduce delivers exactly one new organism per quota unit: counter 0,1,.. below ExpectedOffspring, the quota is not written meanwhile, the append of one NewOrganism result dominates every back edge, the loop ends only by exhaustion or an error; (3) conservation of the quotas, symbolically and per path: every path of the two redistribution loops of giveBabiesToTheBest changes quotas and pool by amounts that sum to zero (integer-linear expressions with versioned field loads), the remainder goes to the first species; delta coding assigns quotas that total PopSize and zeroes every other species; fraction carry, make-up offspring and the collapsed-average fallback have their documented shape; (4) partition: each speciated organism joins exactly one species with a matching back pointer or founds one with a fresh id; removal keeps the others in order; the old generation is removed from its species and from the master list, which is rebuilt from the non-empty species with genome ids 0,1,2,..; (5) ageing: Age+1 exactly for surviving non-novel species, novel species only lose their mark, nobody else writes Age. Not decided: that the floating-point quotas total the population size before the fix-up (numeric), so 'succeeds without error' is not decided as a whole."
+	r.Explanation = "Decided: (1) pipeline order of both executors by dominance (adjust fitness of every species, quotas and zero-quota purge, delta coding or stolen babies, purge of eliminated organisms, reproduction of every species, progeny-size check on the very list that is speciated, purge of the old generation, purge/ageing of species); (2) Species.reproduce delivers exactly one new organism per quota unit: counter 0,1,.. below ExpectedOffspring, the quota is not written meanwhile, the append of one NewOrganism result dominates every back edge, the loop ends only by exhaustion or an error; (3) conservation of the quotas, symbolically and per path: every path of the two redistribution loops of giveBabiesToTheBest changes quotas and pool by amounts that sum to zero (integer-linear expressions with versioned field loads), the remainder goes to the first species; delta coding assigns quotas that total PopSize and zeroes every other species; fraction carry, make-up offspring and the collapsed-average fallback have their documented shape; (4) partition: each speciated organism joins exactly one species with a matching back pointer or founds one with a fresh id; removal keeps the others in order; the old generation is removed from its species and from the master list, which is rebuilt from the non-empty species with genome ids 0,1,2,..; (5) ageing: Age+1 exactly for surviving non-novel species, novel species only lose their mark, nobody else writes Age; (6) every path through the quota computation ends with quotas that were tested to total at least the population size - the quantity tested includes every offspring added after the count - or went through the all-to-one redistribution (symbolic total along enumerated paths); (7) the parallel executor's result messages own their encoded offspring (C16.4's hand-over rule), so the collector decodes what the species produced. Not decided: that the floating-point quotas total the population size before the fix-up (numeric), so 'succeeds without error' is not decided as a whole."
 	r.Rule("C02.1", "pipeline order of an epoch, both executors", func() { r.epochPipeline(true) })
 	r.Rule("C02.2", "a species delivers exactly one new organism per unit of its quota", func() { r.babiesPerQuota() })
 	r.Rule("C02.3", "quota redistribution conserves the total", func() { r.conservation() })
@@ -1004,6 +1019,9 @@ func C02(p *Prog, r *Run) {
 		r.c02ErrorExits()
 	})
 	r.Rule("C02.6", "the best-species-reproduced flag consulted by the end-of-epoch check is set under `species id == bestSpeciesId` (or keeps a previous true); results of other species never reset it", func() { r.c02BestFlag() })
+	r.Rule("C02.8", "parallel executor: the encoded offspring a species goroutine hands to the collector are owned by the message - they do not alias storage that is given back or reused (a pooled or package-level buffer) before the collector, which runs after all goroutines have ended, has decoded them; otherwise a later goroutine overwrites the payload, decoding fails and the epoch returns an error instead of PopSize new organisms (the ownership rule is shared with C16.4)", func() {
+		r.c02ResultOwned()
+	})
 	r.Rule("C02.5", "marking for elimination stays inside the organism list for every survival threshold (shared with C09.2): the marking loop is bounded by the length of the list", func() {
 		r.c09AdjustFitness(true)
 	})
